@@ -361,8 +361,9 @@ Section Message.
       assert (Dp : (depth (m_body m) < S (length input))%nat).
       { pose proof (depth_le_body wsa ffmt quote o (m_body m) O) as L.
         rewrite HinB. rewrite !app_length. lia. }
+      assert (Dd : 0 + Z.of_nat (depth (m_body m)) <= max_list_depth) by lia.
       destruct (reads_all egt ffmt quote fparse quote_plain narrow32 ffmt_good float_roundtrip quote_law o Ho input
-                  (m_body m) DI (S (length input)) O q' [] [c_nl] c_dot [] Dp (Forall_nil _)
+                  (m_body m) DI (S (length input)) 0 O q' [] [c_nl] c_dot [] Dp Dd (Forall_nil _)
                   ltac:(repeat constructor) ltac:(split; [reflexivity|discriminate]) HinB) as (x' & q2 & R & Hq2 & Ev).
       assert (SameSt : mkst q' (enc_body wsa ffmt quote o O (m_body m) ++ [c_nl; c_dot])
                        = mkst q' ([] ++ enc_body wsa ffmt quote o O (m_body m) ++ [c_nl] ++ [c_dot])) by reflexivity.
